@@ -31,17 +31,18 @@ def floatToInt32 (x : Float) : Option Int :=
 
 def padLeft (s : String) (n : Nat) : String := String.ofList (List.replicate (n - s.length) '0') ++ s
 
-/-- `Convert::ToString(double)`: `std::fixed`, precision 0 when the value is integral, 6 otherwise (round-half-even on the exact value) -/
-def floatToString (x : Float) : String :=
+/-- `std::fixed` with precision 0 when `integralShort` and the value is integral, 6 otherwise (round-half-even on the exact value);
+    `Convert::ToString(double)` uses the short form, `ConfigWriter::EmitNumber` never does. -/
+def floatFixed (integralShort : Bool) (x : Float) : String :=
   let sign := if x.toBits.toNat / 2 ^ 63 == 1 then "-" else ""
   if x.isNaN then sign ++ "nan"
   else if !x.isFinite then sign ++ "inf"
   else
     let (_, m, e) := decomp x
-    if e ≥ 0 then sign ++ toString (m * 2 ^ e.toNat)
+    if e ≥ 0 then sign ++ toString (m * 2 ^ e.toNat) ++ (if integralShort then "" else ".000000")
     else
       let den := 2 ^ (-e).toNat
-      if m % den == 0 then sign ++ toString (m / den)
+      if m % den == 0 then sign ++ toString (m / den) ++ (if integralShort then "" else ".000000")
       else
         let num := m * 1000000
         let q := num / den
@@ -59,7 +60,8 @@ instance : Num Float where
   lt := (· < ·)
   le := (· ≤ ·)
   toInt32 := floatToInt32
-  toStr := floatToString
+  toStr := floatFixed true
+  toFixed := floatFixed false
 
 /-! ### protocol -/
 
@@ -158,7 +160,7 @@ def parse : Nat → List String → PR E
       | some (fe, r1) => (many n.toNat! r1).map fun (args, r2) => (.call fe args, r2)
       | none => none
     | "arr" :: n :: r => (many n.toNat! r).map fun (es, r1) => (.array es, r1)
-    | "dict" :: n :: r => (many n.toNat! r).map fun (es, r1) => (.dict es, r1)
+    | "dict" :: n :: r => (many n.toNat! r).map fun (es, r1) => (.dict (bindDictBody es), r1)     -- config_parser.yy:1027-1033
     | "blk" :: n :: r => (many n.toNat! r).map fun (es, r1) => (.block es, r1)
     | "for" :: k :: v :: r => two r fun e b => .for k (if v == "-" then "" else v) e b
     | "fn" :: np :: r =>
